@@ -182,6 +182,16 @@ pub fn c13_commands(cx: &mut Ctx) {
                         cx.probe("c13_long_number_without_server");
                         break;
                     }
+                    // commands carry no tag: a server that received this very text may have got it
+                    // from another client that sent the same text at the same time (and, holding a
+                    // server in session mode, had it forwarded)
+                    let same_text_elsewhere = h.clients.values().any(|o| {
+                        o.id != c.id && o.steps.iter().any(|x| x.op == "send" && x.start_seq <= s.done_seq.max(s.start_seq) && (x.done_seq == 0 || x.done_seq >= s.start_seq) && query_text_of(x).map(|t| t == q).unwrap_or(false))
+                    });
+                    if !forwarded.is_empty() && same_text_elsewhere && !in_txn && !(cx.pool_mode(&c.database, &c.user) == "session" && forwarded_before) {
+                        cx.probe("c13_forward_attribution_ambiguous");
+                        break;
+                    }
                     if !forwarded.is_empty() {
                         let session_holds_server = cx.pool_mode(&c.database, &c.user) == "session" && forwarded_before;
                         let fp = if in_txn { "C13/command_forwarded/inside_transaction" } else if session_holds_server { "C13/command_forwarded/session_holds_server" } else { "C13/command_forwarded" };
